@@ -42,6 +42,9 @@ Val(n) == CASE n = "i1" -> Sc("int", 10000) [] n = "i2" -> Sc("int", 20000) [] n
             [] n = "Sf" -> V("set", 0, "-", "-", <<Sc("float", 10000), Sc("float", 10005)>>)
             [] n = "Sg" -> V("set", 0, "-", "-", <<Sc("float", 10000), Sc("float", 20000)>>)
             [] n = "nan" -> Sc("nan", 0) [] n = "inf" -> Sc("float", 2100000000)
+            \* one-shot lazy iterables (a reversed-iterator, a map object: the kinds the comparison documents as list generators) yielding 1, 2: the documented equality materialises them,
+            \* so they stand for the list of their elements; each use gets a FRESH iterator
+            [] n \in {"R12", "M12"} -> V("list", 0, "-", "-", <<Sc("int", 10000), Sc("int", 20000)>>)
             [] n = "T1a" -> V("tuple", 0, "-", "-", <<Sc("int", 10000), St("abc", "plain")>>)
             [] OTHER -> Sc("none", 0)
 
@@ -181,7 +184,9 @@ NF(x) == CASE x \in {"o:abc", "o:ABC!", "abc", "ABC", "abc!"} -> {"abc"} [] x \i
 ContainsPairs == {<<o, "empty">> : o \in Outputs \ {"err"}}
     \cup {<<"o:abc", "abc">>, <<"o:abc", "ABC">>, <<"o:ABC!", "abc">>, <<"o:ABC!", "ABC">>, <<"o:ABC!", "abc!">>,
           <<"o:two", "abc">>, <<"o:two", "ABC">>, <<"o:abd", "abd">>, <<"o:two", "abd">>}
+LazyNames == {"R12", "M12"}
 LDom(a) == IF OutFam(a) THEN Outputs
+           ELSE IF a \in {"equal", "not_equal"} THEN ValNames \cup LazyNames
            ELSE IF a \in {"is", "is_not"} THEN IdentityVals \cap ValNames
            ELSE IF a \in {"regex", "not_regex"} THEN Patterns ELSE ValNames
 RDom(a) == IF OutFam(a) THEN OutTexts
